@@ -369,9 +369,10 @@ def showOptRatE : Option Rat → String
   | none => "IndexError"
   | some r => showRat r
 
-/-- The observation of a query: the parameter table, and for every model and dataset (insertion order) the local
+/-- The observation of a query: the parameter table, for every model and dataset (insertion order) the local
     vector by the index route (`Condition.get_local_params` of the dataset's condition) and by the name route
-    (`FitData.get_params`). -/
+    (`FitData.get_params`), and the length of the residual vector the fit evaluates (`Fit._calculate_residual`
+    allocates `n_residuals` entries: one per valid data point of every dataset of every model). -/
 def Fit.observe (repaired : Bool) (F : Fit) : String :=
   let uniq := F.table.map (·.1)
   let g := F.values
@@ -381,7 +382,7 @@ def Fit.observe (repaired : Bool) (F : Fit) : String :=
       showStr d.name ++ "=" ++ (match byIdx.lookup d.name with
         | some v => showRatList v
         | none => "missing") ++ "=" ++ showList showOptRatE (getParams d F.table)) ++ "}"
-  "T" ++ showList showParam F.table ++ " L" ++ "".intercalate perModel
+  "T" ++ showList showParam F.table ++ " L" ++ "".intercalate perModel ++ " R" ++ toString F.nResiduals
 
 inductive Action where
   | add (mi : Nat) (name : String) (ov : List (String × Target)) (nanx nany : List Bool)
